@@ -56,6 +56,8 @@ func scenarios(prop string, thorough bool) []*Scenario {
 			r = append(r, &Scenario{Name: roleName(role) + "/from-connect", Opt: role, Alphabet: alpha, Depth: pick(4, 5), oracle: oracleC13})
 			r = append(r, &Scenario{Name: roleName(role) + "/after-handshake", Opt: role, Prefix: []string{"version", "verack"}, Alphabet: alpha, Depth: pick(3, 4), oracle: oracleC13})
 		}
+		// the same with the stream arriving in pieces (reads of at most 7 bytes)
+		r = append(r, &Scenario{Name: "full+txmanager/from-connect/short-reads-7", Opt: netsim.Options{TxManager: true, Manager: true, ReadChunk: 7}, Alphabet: alpha, Depth: pick(3, 4), oracle: oracleC13})
 	case "C03":
 		alpha := append(append([]string{}, handshakeLetters...), headersLetters...)
 		alpha = append(alpha, "ping", "protoconf", "addr[1]", "inv[tx0]", "unknown[1025]")
@@ -67,6 +69,8 @@ func scenarios(prop string, thorough bool) []*Scenario {
 			r = append(r, &Scenario{Name: roleName(role) + "/known-headers/after-handshake", Opt: pre, Prefix: []string{"version", "verack"},
 				Alphabet: append(append([]string{}, headersLetters...), "ping", "addr[1]"), Depth: pick(2, 3), oracle: oracleC03})
 		}
+		// the same with the stream arriving in pieces (reads of at most 7 bytes)
+		r = append(r, &Scenario{Name: "verify-only/from-connect/short-reads-7", Opt: netsim.Options{VerifyOnly: true, ReadChunk: 7}, Alphabet: alpha, Depth: pick(4, 5), oracle: oracleC03})
 	case "C14":
 		ready := []string{"version", "verack", "headers[bsv-split]"}
 		alpha := fullAlphabet()
